@@ -3,6 +3,7 @@ SPECIFICATION Spec
 CONSTANTS
   EPs = {"api"}
   Strength = 2
+  Thin = FALSE
   MissingGuards = {"api.bd.payload_nil"}
 INVARIANTS TypeOK AlwaysAnswersHTTP NeverCrash NeverHangs NoFourthValue
 CHECK_DEADLOCK FALSE
